@@ -97,9 +97,15 @@ class DeferredFileWriter(metaclass=Singleton):
         path = path.parent.resolve() / path.name
         # Let's see if we already opened this file. If so, get the corresponding
         # temporary file.
-        for tmp_path, open_path, _ in self.open_files:
+        for open_file in self.open_files:
+            tmp_path, open_path, old_mode = open_file
             # Can't use Path.samefile, since the files don't have to exist yet
             if open_path == path:
+                if 'w' in mode and 'w' not in old_mode and '+' not in old_mode:
+                    # Truncating a file that was so far appended to discards
+                    # the old contents, so the result must replace the
+                    # destination rather than be appended to it.
+                    open_file[2] = mode
                 return _open(tmp_path, mode, *args, **kwargs)
 
         if '+' in mode or 'a' in mode or 'w' in mode:  # Append and write
